@@ -73,9 +73,13 @@ class ReverseProxy(TcpUpstreamConnectionHandler, HttpWebServerBasePlugin):
             request = r
 
         needs_upstream = False
+        routed = False
 
         # routes
         for plugin in self.plugins:
+            # A request is served by the first matching route only
+            if routed:
+                break
             for route in plugin.routes():
                 # Static routes
                 if isinstance(route, tuple):
@@ -85,6 +89,7 @@ class ReverseProxy(TcpUpstreamConnectionHandler, HttpWebServerBasePlugin):
                             random.choice(route[1]),
                         )
                         needs_upstream = True
+                        routed = True
                         break
                 # Dynamic routes
                 elif isinstance(route, str):
@@ -103,6 +108,7 @@ class ReverseProxy(TcpUpstreamConnectionHandler, HttpWebServerBasePlugin):
                             self._upstream_proxy_pass = '{0}:{1}'.format(
                                 *self.upstream.addr,
                             )
+                        routed = True
                         break
                 else:
                     raise ValueError('Invalid route')
